@@ -119,6 +119,8 @@ class Recorder:
             raise _StopSearch()
         trace = os.environ.get("VERIF_TRACE")
         if trace:
+            trace = f"{trace}.{os.getpid()}"  # one file per worker process
+        if trace:
             # debugging aid: the sequence of cases one worker process executes (history effects between cases)
             with open(trace, "a") as fh:
                 fh.write(dumps(case) + "\n")
